@@ -18,7 +18,7 @@ package compat
 //@   ensures [agreement-or-utf8-only] called("parse.Matcher$") && ret1("parse.Matcher$") == nil && (ret1("labels.ParseMatcher$") != nil || ret("reflect.DeepEqual")) ==> result0 == ret("parse.Matcher$") && result1 == nil
 //@   noeffect parse.Matcher$ labels.ParseMatcher$ Matcher).String
 //@ func FallbackMatchersParser$1
-//@   props C16
+//@   props C16 C07 C17
 //@   nosafe
 //@   ensures [both-reject] ret1("parse.Matchers") != nil && ret1("labels.ParseMatchers") != nil ==> result0 == nil && result1 == ret1("labels.ParseMatchers")
 //@   ensures [classic-only] ret1("parse.Matchers") != nil && ret1("labels.ParseMatchers") == nil ==> result0 == ret("labels.ParseMatchers") && result1 == nil
